@@ -145,6 +145,18 @@ CHECKS = {
          "Trusted: Lean kernel + standard axioms; the table translator. Outside the model: pandas metadata JSON branch of typemap, "
          "time zones, pandas dtype objects (compared by canonical name).",
          "Lean 4 proof over regenerated tables + prediction correspondence + oracle", "§6 C17"),
+ "C03": ("Lean 4 theorems: the specification decoder inverts every choice a conforming writer has - a hybrid stream of ANY mixture of well-formed "
+         "RLE and bit-packed runs at ANY width decodes to the values it stands for (hence dictionary indices at any width byte), dictionary "
+         "look-up is total on in-range indices, scattering values over definition levels yields one cell per level, nulls exactly below the "
+         "maximum level and values in order, and is independent of where page boundaries fall (also covers dictionary fallback). The "
+         "executable reader Spec.File assembled from these pieces CERTIFIES every file of a specification-level writer (types x encodings x "
+         "index widths 0..32 x delta widths 0..64 x run mixtures x level encodings x page splits x row groups x null patterns x codecs x "
+         "v1/v2 +- compressed flag) before fastparquet reads it in an isolated process; the read must equal the certified table or refuse. "
+         "Kernel-decided witnesses show the code-shaped kernel models fault at bit-packed width 25/26 and delta width 29 (known findings).",
+         "Trusted: Lean kernel + standard axioms; the Lean compiler for executing Spec.File; cramjam (codecs are outside Lean). The tie "
+         "between fastparquet's reader and the specification is the certified-file comparison (differential), not a refinement proof of "
+         "core.py; the kernels' code-shaped models are tied by the C11 correspondence.",
+         "Lean 4 proof (specification decoder inverts any conforming encoder) + Lean-certified foreign files vs the real reader", "§6 C03"),
  "C01": ("Partial: the oracle (the property itself: names, order, rows, index, every cell, dtype or documented canonical form - or the write "
          "raised) is evaluated on the real code over the option lattice with pairwise/random coverage; the format pipeline is tied to the "
          "Lean specification reader Spec.File, which decodes the very bytes the writer produced (C02) - so a symmetric writer/reader error is "
